@@ -13,7 +13,9 @@
 (* mode "comp": st = [mass, spec, ext]     one FuelConverter / Generator /  *)
 (*      ReversibleEnergyStorage (ext = pwr_out_max resp. energy_capacity)   *)
 (*      obs = [mass |-> mass(), derived |-> derived_mass()]                 *)
-(* mode "loco": st = [units |-> Seq([t, mass, mu, force, base, ball,        *)
+(* mode "loco" (t = "conv" | "bel" | "hyb": comps = fc,gen | res | fc,gen,  *)
+(*      res; derived mass = sum of comps + baseline + ballast):             *)
+(*      st = [units |-> Seq([t, mass, mu, force, base, ball,                *)
 (*                                   comps |-> Seq([mass, spec, ext])]),    *)
 (*                    cars |-> [types |-> Seq(<<base, freight, count>>),    *)
 (*                              override |-> mass | N]]                     *)
@@ -59,13 +61,16 @@ Old == Variant = "ascoded"      \* the code as it was before the repair commits 
 K == 64
 N == -1
 E == -2
+Xq == -3                  \* "known, but not a multiple of 1/K": only the specific power / energy an Intensive
+                         \* side effect computes for a near-equal mass (rating / mass) takes this value in the model
 OFF == -9                \* left the lattice (inexact / out of range): such states are not explored
-MaxQ == 8192
+MaxQ == 32768
 Known(x) == x >= 0
 Idx(s) == 1..Len(s)
 
 Mul(a, b) == IF a < 0 \/ b < 0 THEN OFF ELSE IF (a * b) % K = 0 THEN (a * b) \div K ELSE OFF
 Div(a, b) == IF a < 0 \/ b <= 0 THEN OFF ELSE IF (a * K) % b = 0 THEN (a * K) \div b ELSE OFF
+DivX(a, b) == IF a < 0 \/ b <= 0 THEN OFF ELSE IF (a * K) % b = 0 THEN (a * K) \div b ELSE Xq
 RECURSIVE SumSeq(_)
 SumSeq(s) == IF s = <<>> THEN 0 ELSE Head(s) + SumSeq(Tail(s))
 
@@ -78,7 +83,8 @@ vars == <<mode, st, obs, last, pst, pobs, ops, st0>>
 
 ----------------------------------------------------------------------------
 (* getters as coded *)
-CDerived(c) == IF Known(c.spec) THEN Div(c.ext, c.spec) ELSE N
+(* spec = Xq arises only as rating / mass: the derived mass then IS the mass (up to the last ulp) *)
+CDerived(c) == IF c.spec = Xq THEN c.mass ELSE IF Known(c.spec) THEN Div(c.ext, c.spec) ELSE N
 CMass(c) == IF Known(c.mass) /\ Known(c.spec) /\ c.mass * c.spec # c.ext * K THEN E ELSE c.mass
 
 (* inherent Locomotive::derived_mass (locomotive_model.rs:992) *)
@@ -125,10 +131,15 @@ CompOk(c) == (Known(c.mass) /\ Known(c.spec)) => c.mass * c.spec = c.ext * K
 DerivedA(u) == IF Known(u.base) /\ Known(u.ball) /\ \A j \in Idx(u.comps) : Known(u.comps[j].mass)
                THEN SumSeq([j \in Idx(u.comps) |-> u.comps[j].mass]) + u.base + u.ball ELSE N
 
+(* stated twice: on the fields, cross-multiplied, where they are on the grid; and on the getters        *)
+(* (reported mass = derived mass), which also holds where a field is off the grid (Xq)                   *)
 ComponentConsistent ==
   Obj("comp") => /\ CompOk(st)
                  /\ obs.mass = st.mass                                     \* mass() answers, with the set mass
-                 /\ IF Known(st.spec) THEN obs.derived * st.spec = st.ext * K ELSE obs.derived = N
+                 /\ st.spec = N => obs.derived = N
+                 /\ st.spec # N => obs.derived \notin {N, E}
+                 /\ (Known(st.spec) /\ Known(st.ext) /\ Known(obs.derived)) => obs.derived * st.spec = st.ext * K
+                 /\ (Known(st.mass) /\ Known(obs.derived)) => obs.derived = st.mass
 UnitConsistent(u, m) == /\ \A j \in Idx(u.comps) : CompOk(u.comps[j])
                         /\ m # E
                         /\ Known(u.mass) => m = u.mass
@@ -158,9 +169,12 @@ CompOption ==
   LET m == last.arg  d == pobs.derived IN
   CASE last.name = "SetMass" ->
          /\ st.mass = m
-         /\ IF Known(m) /\ Known(d) /\ d # m
-            THEN CASE last.opt = "Extensive" -> st.spec = pst.spec /\ st.ext * K = st.spec * m
-                   [] last.opt = "Intensive" -> st.ext = pst.ext /\ st.spec * m = st.ext * K
+         /\ IF d = Xq \/ d = E THEN TRUE                          \* nothing exact to compare the new mass with
+            ELSE IF Known(m) /\ Known(d) /\ d # m
+            THEN CASE last.opt = "Extensive" -> /\ st.spec = pst.spec /\ obs.derived = m
+                                                /\ (Known(st.ext) /\ Known(st.spec)) => st.ext * K = st.spec * m
+                   [] last.opt = "Intensive" -> /\ st.ext = pst.ext /\ st.spec # N /\ obs.derived = m
+                                                /\ (Known(st.ext) /\ Known(st.spec)) => st.spec * m = st.ext * K
                    [] OTHER -> st.ext = pst.ext /\ st.spec = N
             ELSE /\ st.ext = pst.ext
                  /\ Known(m) => st.spec = pst.spec
@@ -214,7 +228,7 @@ CSetMass(c, m, opt) ==                                  \* never fails
   LET d == CDerived(c) IN
   IF Known(d) /\ Known(m) THEN
      IF d # m THEN CASE opt = "Extensive" -> [c EXCEPT !.ext = Mul(c.spec, m), !.mass = m]
-                     [] opt = "Intensive" -> [c EXCEPT !.spec = Div(c.ext, m), !.mass = m]
+                     [] opt = "Intensive" -> [c EXCEPT !.spec = DivX(c.ext, m), !.mass = m]
                      [] OTHER -> [c EXCEPT !.spec = N, !.mass = m]
      ELSE [c EXCEPT !.mass = m]
   ELSE IF m = N THEN [c EXCEPT !.spec = N, !.mass = N]
@@ -294,7 +308,7 @@ Apply(m, s, name, a, opt, k) ==
 ----------------------------------------------------------------------------
 (* the lattice *)
 OnQ(x) == x = N \/ (x >= 1 /\ x <= MaxQ)
-CompOn(c) == OnQ(c.mass) /\ OnQ(c.spec) /\ OnQ(c.ext) /\ c.ext # N
+CompOn(c) == OnQ(c.mass) /\ (OnQ(c.spec) \/ c.spec = Xq) /\ OnQ(c.ext) /\ c.ext # N
 UnitOn(u) == /\ OnQ(u.mass) /\ OnQ(u.mu) /\ OnQ(u.force) /\ u.force # N /\ OnQ(u.base) /\ OnQ(u.ball)
              /\ \A j \in Idx(u.comps) : CompOn(u.comps[j])
 OnLattice(m, s) == IF m = "comp" THEN CompOn(s) ELSE \A k \in Idx(s.units) : UnitOn(s.units[k])
@@ -304,6 +318,7 @@ OnLattice(m, s) == IF m = "comp" THEN CompOn(s) ELSE \A k \in Idx(s.units) : Uni
 CONSTANTS CompInits, LocoInits, LoadFiles,   \* sets of <<mode, st>>
           CompOps, LocoOps,                  \* sets of <<name, arg, opt>>
           Targets,                           \* units a call may address
+          Near,                              \* BOOLEAN: near-equal mass updates are part of the component alphabet
           MaxOps
 
 New == [name |-> "New", arg |-> 0, opt |-> "", k |-> 0, ok |-> TRUE]
@@ -312,8 +327,15 @@ Init == /\ \E ms \in CompInits \cup LocoInits \cup LoadFiles : mode = ms[1] /\ s
         /\ obs = (IF mode \in {"comp", "loco"} THEN Observe(mode, st) ELSE <<>>)
         /\ last = New /\ pst = st /\ pobs = obs /\ ops = <<>> /\ st0 = <<mode, st>>
 
+(* near-equal updates: new mass = derived mass * (1 +- 2^-12), every side-effect option; on the grid only *)
+(* where the derived mass is a multiple of 64 kg (the "big" component inits of the MC module)             *)
+NearOps(c) == LET d == CDerived(c) IN
+              IF Known(d) /\ d > 0 /\ d % 4096 = 0
+              THEN {<<"SetMass", d + sg * (d \div 4096), o>> : sg \in {-1, 1}, o \in {"None", "Extensive", "Intensive"}}
+              ELSE {}
 Call == /\ mode \in {"comp", "loco"} /\ Len(ops) < MaxOps /\ last.name # "Load"     \* a file case ends with its Load
-        /\ \E o \in (IF mode = "comp" THEN CompOps ELSE LocoOps), k \in Targets :
+        /\ mode = "comp" => st.spec # Xq                                             \* nor does the model go on from an off-grid value
+        /\ \E o \in (IF mode = "comp" THEN CompOps \cup (IF Near THEN NearOps(st) ELSE {}) ELSE LocoOps), k \in Targets :
              /\ (mode = "comp" => k = 1) /\ (mode = "loco" => k <= Len(st.units))
              /\ LET r == Apply(mode, st, o[1], o[2], o[3], k) IN
                 /\ OnLattice(mode, r.st)
